@@ -158,7 +158,7 @@ func (e *Engine) checkProperty(prop, tier string, par int, writeLedger bool) int
 	}
 	e.solveAll(rr.obls, par, e.timeout, "")
 
-	replayDir := filepath.Join(e.verif, "replays", prop)
+	replayDir := filepath.Join(envOr("VERIF_OUT", e.verif), "replays", prop)
 	var viols []violation
 	var knownLines []string
 	addViolation := func(name string, o *Obl, why string) {
@@ -302,9 +302,9 @@ func (e *Engine) checkProperty(prop, tier string, par int, writeLedger bool) int
 	}
 	// evidence
 	ev := e.evidence(prop, tier, seed, rr, extra, nObl, nDis, nVac, nVacOK, knownCount, knownLines, backends, solverSecs, len(viols), time.Since(t0).Seconds())
-	os.MkdirAll(filepath.Join(e.verif, "evidence"), 0o755)
+	os.MkdirAll(filepath.Join(envOr("VERIF_OUT", e.verif), "evidence"), 0o755)
 	b, _ := json.MarshalIndent(ev, "", " ")
-	os.WriteFile(filepath.Join(e.verif, "evidence", prop+".json"), b, 0o644)
+	os.WriteFile(filepath.Join(envOr("VERIF_OUT", e.verif), "evidence", prop+".json"), b, 0o644)
 	fmt.Printf("%s %s: %d/%d obligations discharged, %d/%d vacuity guards ok, %d known-finding obligations, %d violations, %.1fs\n",
 		prop, tier, nDis, nObl, nVacOK, nVac, knownCount, len(viols), time.Since(t0).Seconds())
 	if len(viols) > 0 {
